@@ -40,6 +40,9 @@ import warnings
 from fractions import Fraction
 from functools import partial
 
+import copy
+import time
+
 import numpy as np
 
 import gen_games as G
@@ -338,7 +341,7 @@ def run(tier: str, budget: Budget, rnd, arg) -> StreamResult:
                 if bad:
                     continue
                 if fam not in SEED_IGNORING:
-                    first_seen.append((key, n, seed, vals))
+                    first_seen.append((key, n, seed, vals, game))
                 fv = [frac(x) for x in vals]
                 if len(set(fv)) >= 3 and G.asymmetric(fv, n):
                     res.nontrivial.add((key, n, seed))
@@ -357,7 +360,9 @@ def run(tier: str, budget: Budget, rnd, arg) -> StreamResult:
                         script.add(line, expected, ctx)
                     else:
                         script.add(line, None, ctx)
-                        post_checks.append((len(script) - 1, mode, expected, post, ctx))
+                        # snapshot: the returned game object is deliberately modified later (history re-calls below)
+                        snap = expected.copy() if isinstance(expected, np.ndarray) else copy.deepcopy(expected)
+                        post_checks.append((len(script) - 1, mode, snap, post, ctx))
                     res.count(f"compare:{mode}")
                 res.sample({"key": key, "n": n, "seed": seed, "draws": repr(rec.log)[:200], "values": vals.tolist()[:8]}, limit=4)
             if stop:
@@ -372,9 +377,21 @@ def run(tier: str, budget: Budget, rnd, arg) -> StreamResult:
     again = list(first_seen)
     rnd.shuffle(again)
     again.sort(key=lambda t: -t[1])          # larger player counts first, then the smaller ones again
-    for key, n, seed, vals in again[: (400 if tier == "quick" else 4000)]:
+    for key, n, seed, vals, game0 in again[: (400 if tier == "quick" else 4000)]:
         if not budget.ok() and tier == "quick" and res.distribution.get("history-recalls", 0) > 60:
             break
+        # consumers modify the games they are handed (ICG_Gym normalises a copy, scripts normalise in place): do the same to
+        # the object returned by the first call — a generator that hands out a shared / cached object shows here
+        try:
+            if hasattr(game0, "set_values"):
+                from incomplete_cooperative.normalize import normalize_game
+                normalize_game(game0)
+                game0.set_value(12345.0, __import__("incomplete_cooperative.coalitions", fromlist=["Coalition"]).Coalition(2 ** n - 1))
+            elif hasattr(game0, "_graph_matrix"):
+                game0._graph_matrix *= 3.0
+            res.count("history-recalls:first-object-mutated")
+        except Exception:           # noqa: BLE001
+            pass
         try:
             v4 = np.array(call(GM, key, n, np.random.default_rng(seed)).get_values())
         except Exception as e:
@@ -384,6 +401,29 @@ def run(tier: str, budget: Budget, rnd, arg) -> StreamResult:
         if not np.array_equal(v4, vals):
             violate(key, n, seed, "not-deterministic-across-history",
                     {"first": vals.tolist()[:8], "again_after_other_calls": v4.tolist()[:8]})
+
+    # the command-line path: the generator is selected and seeded through run.model.ModelInstance (seed → game_generator_rng →
+    # one child stream per environment). Two instances with the same seed must draw the same hidden games — boundary seeds too.
+    try:
+        from incomplete_cooperative.run.model import ModelInstance
+        mkeys = [k for k in keys if fams[k][0] not in SEED_IGNORING and fams[k][0] is not None]
+        rnd.shuffle(mkeys)
+        for key in mkeys[: (6 if tier == "quick" else 40)]:
+            for seed in (0, 1, 2 ** 32, rnd.randrange(2 ** 31)):
+                n = rnd.choice(ns)
+                draws = []
+                for rep in range(2):
+                    inst = ModelInstance(number_of_players=n, game_generator=key, seed=seed, run_steps_limit=1)
+                    env = inst.get_env()
+                    draws.append((np.array(env.full_game.get_values()), np.array(inst.game_generator_fn().get_values())))
+                    time.sleep(0.002)          # the default seed is a millisecond clock: never let two instances share a tick
+                res.evaluations += 1
+                res.count("model-instance-path")
+                if not (np.array_equal(draws[0][0], draws[1][0]) and np.array_equal(draws[0][1], draws[1][1])):
+                    violate(key, n, seed, "not-deterministic-through-ModelInstance",
+                            {"first": draws[0][0].tolist()[:8], "second": draws[1][0].tolist()[:8]})
+    except ImportError as e:       # run.model needs torch / sb3; absent ⇒ reported, not silently skipped
+        res.notes.append(f"ModelInstance path not exercised: {e}")
 
     for b in script.diff():
         res.disagree("generator values", {k: b[k] for k in ("line", "impl", "model", "ctx")})
